@@ -204,13 +204,21 @@ func (b *Built) trap(op string, f func()) {
 }
 
 // Build creates the objects and performs all registrations (never stops at a failing one).
-func Build(p Project) *Built {
+func Build(p Project) *Built { return BuildSharing(p, nil) }
+
+// BuildSharing is Build with the type and rule objects of an earlier build reused where the name and
+// the text agree - the way an API project is put together: every type is parsed once and the one
+// object is registered in every schema that may use it.
+func BuildSharing(p Project, from *Built) *Built {
 	b := &Built{P: p, Types: map[string]schema.Schema{}, Rules: map[string]*enum.Enum{},
 		AddErr: map[string]*ErrInfo{}, RuleErr: map[string]*ErrInfo{}}
 	b.S = jschema.New(p.Name(), p.Root)
 	for _, r := range p.Rules {
 		r := r
 		e := enum.New(r.Name, r.Text)
+		if from != nil && from.Rules[r.Name] != nil && from.ruleText(r.Name) == r.Text {
+			e = from.Rules[r.Name]
+		}
 		b.Rules[r.Name] = e
 		b.trap("AddRule", func() {
 			if err := b.S.AddRule(r.Name, e); err != nil {
@@ -221,7 +229,9 @@ func Build(p Project) *Built {
 	for _, t := range p.Types {
 		t := t
 		var ts schema.Schema
-		if t.Regex {
+		if from != nil && from.Types[t.Name] != nil && from.typeText(t.Name) == typeKey(t) {
+			ts = from.Types[t.Name]
+		} else if t.Regex {
 			ts = regex.New(t.FileName(), t.Text)
 		} else {
 			js := jschema.New(t.FileName(), t.Text)
@@ -247,6 +257,31 @@ func Build(p Project) *Built {
 		})
 	}
 	return b
+}
+
+func typeKey(t Named) string {
+	if t.Regex {
+		return "regex:" + t.Text
+	}
+	return t.File + ":" + t.Text
+}
+
+func (b *Built) typeText(name string) string {
+	for _, t := range b.P.Types {
+		if t.Name == name {
+			return typeKey(t)
+		}
+	}
+	return "\x00"
+}
+
+func (b *Built) ruleText(name string) string {
+	for _, r := range b.P.Rules {
+		if r.Name == name {
+			return r.Text
+		}
+	}
+	return "\x00"
 }
 
 // Outcome is everything observable about a project.
